@@ -152,12 +152,13 @@ def step (s : S) : List String → S × String
     | some b =>
       let blk := { b with txs := s.txs.reverse }
       match applyBlock s.cfg s.st blk with
-      | .ok (st', evs) => ({ s with st := st', pending := none, txs := [], events := evs }, "ok")
+      | .ok (st', evs) => ({ s with st := st', pending := none, txs := [], events := s.events ++ evs }, "ok")
       | .panic site => ({ s with pending := none, txs := [], events := [], dead := some site }, s!"panic {site}")
       | .err e => ({ s with pending := none, txs := [], events := [], dead := some e }, s!"err {e}")
   | ["dump", name] => (s, renderSection s.cfg s.st name)
   | ["index.oracle.nofail", _, _] => (s, toString s.dead.isNone)
-  | ["events"] => (s, joinOr (canonEvents (s.events.map renderEvent)) "|")
+  -- events of all blocks indexed since the previous `events` request (one update call)
+  | ["events"] => ({ s with events := [] }, joinOr (canonEvents (s.events.map renderEvent)) "|")
   | _ => (s, "bad-op")
 
 end Driver.Index
